@@ -813,7 +813,13 @@ class Session:
         self.cls(rt.model, rtc=scn.rtc, allow_event_without_transition=scn.allow,
                  listeners=self.ctor_list, **kw)
         rt.bound = type("Bound", (), {})()
-        rt.sm.bind_events_to(rt.bound)
+        # a first target that already has an attribute named like an event: skipped (with a warning) for that
+        # event only; every event must still be bound onto the second target
+        names = sorted(str(e) for e in type(rt.sm)._events)
+        rt.bound0 = type("Bound0", (), {names[0]: "taken"} if names else {})()
+        with warnings.catch_warnings():
+            warnings.simplefilter("ignore")
+            rt.sm.bind_events_to(rt.bound0, rt.bound)
         if scn.bind_model:
             with warnings.catch_warnings():
                 warnings.simplefilter("ignore")
@@ -846,8 +852,11 @@ class Session:
                 return cands[0](_tid=EqTag(tid))
         if style == "modelbound" and declared and name in getattr(rt.model, "__dict__", {}):
             return getattr(rt.model, name)(_tid=EqTag(tid))
-        if style == "bound" and declared and hasattr(rt.bound, name):
-            return getattr(rt.bound, name)(_tid=EqTag(tid))
+        if style == "bound" and declared:
+            if not hasattr(rt.bound, name):
+                rt.lines.append(f"X event {name} was not bound onto the target object by bind_events_to")
+            else:
+                return getattr(rt.bound, name)(_tid=EqTag(tid))
         return sm.send(name, _tid=EqTag(tid))
 
     def do_op(self, i, op):
